@@ -3,7 +3,7 @@
   equal the formulas the encoder cites offsets with, every out-of-band group sits at its cited
   offset, the directory serves the core stream of each type (extras of the same type are overridden).
 -/
-import MdProofs.Lemmas.EncodeModules
+import MdProofs.Lemmas.EncodeMisc
 import MdProofs.Lemmas.BytesStreams
 namespace MdModel.Encode
 open MdModel MdModel.Dump MdModel.Gen.Layouts MdModel.Gen.LayoutsC02
@@ -60,18 +60,20 @@ theorem coreStreams_sizes (m : DumpModel) (e : Endian) (f : MemForm) :
   simp only [List.map_append, List.map_cons, List.map_nil, optList_map]
   congr 1
   · congr 1
-    · simp only [List.cons.injEq, Prod.mk.injEq, true_and, and_true]
-      refine ⟨?_, ?_, ?_, ?_, ?_, ?_⟩
-      · simp [encThreadList, listHeader_length, threadRecs_length, h48]; omega
-      · simp [encModuleList, listHeader_length, moduleRecs_length, h108]; omega
-      · cases f
-        · simp [encMemoryList, listHeader_length, memRecs_length, h16]; omega
-        · simp [encMemory64List, mem64Recs, h16']; omega
-      · simp [encMemInfoList, exListHeader, h48']; omega
-      · simp [encThreadNames, listHeader_length, nameRecs_length, h12]; omega
-      · simp [encUnloadedList, exListHeader, unloadedRecs_length, h24]; omega
-    · simp [encException, h168]
-  · simp [encSysInfo, h56]
+    · congr 1
+      · simp only [List.cons.injEq, Prod.mk.injEq, true_and, and_true]
+        refine ⟨?_, ?_, ?_, ?_, ?_, ?_⟩
+        · simp [encThreadList, listHeader_length, threadRecs_length, h48]; omega
+        · simp [encModuleList, listHeader_length, moduleRecs_length, h108]; omega
+        · cases f
+          · simp [encMemoryList, listHeader_length, memRecs_length, h16]; omega
+          · simp [encMemory64List, mem64Recs, h16']; omega
+        · simp [encMemInfoList, exListHeader, h48']; omega
+        · simp [encThreadNames, listHeader_length, nameRecs_length, h12]; omega
+        · simp [encUnloadedList, exListHeader, unloadedRecs_length, h24]; omega
+      · simp [encException, h168]
+    · simp [encSysInfo, h56]
+  · simp [encMiscInfo, miscInfoSize]
 
 theorem allStreams_sizes (m : DumpModel) (e : Endian) (f : MemForm) :
     (allStreams m e f).map (fun x => (x.1, x.2.length)) = streamSizes m f := by
@@ -179,6 +181,7 @@ structure WellFormed (m : DumpModel) (f : MemForm) : Prop where
   modules : ∀ x ∈ m.modules, ModuleFits x
   exception : ∀ x, m.exception = some x → ExcFits x
   sysInfo : ∀ x, m.sysInfo = some x → SysInfoFits x
+  miscInfo : ∀ x, m.miscInfo = some x → MiscFits x
   extra : ∀ x ∈ m.extra, x.1 ∈ coreTypes m f
 
 /-- the types of the six streams always present -/
@@ -187,11 +190,11 @@ def fixedTypes (f : MemForm) : List Nat :=
    ST_MEMORY_INFO_LIST, ST_THREAD_NAMES, ST_UNLOADED_MODULE_LIST]
 
 /-- every type the encoder can emit, in its order -/
-def allTypes (f : MemForm) : List Nat := fixedTypes f ++ [ST_EXCEPTION] ++ [ST_SYSTEM_INFO]
+def allTypes (f : MemForm) : List Nat := fixedTypes f ++ [ST_EXCEPTION] ++ [ST_SYSTEM_INFO] ++ [ST_MISC_INFO]
 
 theorem coreTypes_eq (m : DumpModel) (f : MemForm) :
     coreTypes m f = fixedTypes f ++ optList m.exception (fun _ => ST_EXCEPTION) ++
-      optList m.sysInfo (fun _ => ST_SYSTEM_INFO) := by
+      optList m.sysInfo (fun _ => ST_SYSTEM_INFO) ++ optList m.miscInfo (fun _ => ST_MISC_INFO) := by
   unfold coreTypes coreStreamSizes fixedTypes
   simp only [List.map_append, List.map_cons, List.map_nil, optList_map]
   cases f <;> rfl
@@ -199,7 +202,8 @@ theorem coreTypes_eq (m : DumpModel) (f : MemForm) :
 theorem coreTypes_sublist (m : DumpModel) (f : MemForm) : List.Sublist (coreTypes m f) (allTypes f) := by
   rw [coreTypes_eq]
   unfold allTypes
-  exact ((List.Sublist.refl _).append (optList_sublist_const _ _)).append (optList_sublist_const _ _)
+  exact (((List.Sublist.refl _).append (optList_sublist_const _ _)).append (optList_sublist_const _ _)).append
+    (optList_sublist_const _ _)
 
 theorem allTypes_nodup (f : MemForm) : (allTypes f).Nodup := by cases f <;> decide
 
@@ -340,19 +344,32 @@ theorem core_sysInfo {x : MSysInfo} (h : m.sysInfo = some x) : lastOf ST_SYSTEM_
     some (encSysInfo e (oobOffsets m f).csd x) :=
   core_of_mem m e f (by simp [coreStreams, optList, h])
 
-theorem mem_coreTypes {t : Nat} : t ∈ coreTypes m f ↔
-    t ∈ fixedTypes f ∨ (m.exception.isSome ∧ t = ST_EXCEPTION) ∨ (m.sysInfo.isSome ∧ t = ST_SYSTEM_INFO) := by
+theorem core_miscInfo {x : MMiscInfo} (h : m.miscInfo = some x) : lastOf ST_MISC_INFO (coreStreams m e f) =
+    some (encMiscInfo e x) :=
+  core_of_mem m e f (by simp [coreStreams, optList, h])
+
+/-- the optional streams: (present?, type) -/
+def optTypes (m : DumpModel) : List (Bool × Nat) :=
+  [(m.exception.isSome, ST_EXCEPTION), (m.sysInfo.isSome, ST_SYSTEM_INFO), (m.miscInfo.isSome, ST_MISC_INFO)]
+
+theorem mem_optList_const {α : Type} {o : Option α} {t x : Nat} : x ∈ optList o (fun _ => t) ↔ (o.isSome = true ∧ x = t) := by
+  cases o <;> simp [optList]
+
+theorem mem_coreTypes {t : Nat} : t ∈ coreTypes m f ↔ t ∈ fixedTypes f ∨ (true, t) ∈ optTypes m := by
   rw [coreTypes_eq]
-  simp only [List.mem_append, mem_optList, Option.isSome_iff_exists, or_assoc]
+  simp only [List.mem_append, mem_optList_const, optTypes, List.mem_cons, Prod.mk.injEq, List.not_mem_nil, or_false,
+    or_assoc]
   constructor
-  · rintro (h | ⟨a, h1, h2⟩ | ⟨a, h1, h2⟩)
+  · rintro (h | ⟨h1, h2⟩ | ⟨h1, h2⟩ | ⟨h1, h2⟩)
     · exact .inl h
-    · exact .inr (.inl ⟨⟨a, h1⟩, h2.symm⟩)
-    · exact .inr (.inr ⟨⟨a, h1⟩, h2.symm⟩)
-  · rintro (h | ⟨⟨a, h1⟩, h2⟩ | ⟨⟨a, h1⟩, h2⟩)
+    · exact .inr (.inl ⟨h1.symm, h2⟩)
+    · exact .inr (.inr (.inl ⟨h1.symm, h2⟩))
+    · exact .inr (.inr (.inr ⟨h1.symm, h2⟩))
+  · rintro (h | ⟨h1, h2⟩ | ⟨h1, h2⟩ | ⟨h1, h2⟩)
     · exact .inl h
-    · exact .inr (.inl ⟨a, h1, h2.symm⟩)
-    · exact .inr (.inr ⟨a, h1, h2.symm⟩)
+    · exact .inr (.inl ⟨h1.symm, h2⟩)
+    · exact .inr (.inr (.inl ⟨h1.symm, h2⟩))
+    · exact .inr (.inr (.inr ⟨h1.symm, h2⟩))
 
 theorem no_memory64_in_mem : ST_MEMORY64_LIST ∉ coreTypes m .mem := by
   intro h
@@ -364,17 +381,21 @@ theorem no_memory_in_mem64 : ST_MEMORY_LIST ∉ coreTypes m .mem64 := by
 
 theorem no_exception (h : m.exception = none) : ST_EXCEPTION ∉ coreTypes m f := by
   rw [mem_coreTypes]
-  rintro (h0 | ⟨h1, _⟩ | ⟨_, h2⟩)
+  rintro (h0 | h1)
   · cases f <;> exact absurd h0 (by decide)
-  · simp [h] at h1
-  · exact absurd h2 (by decide)
+  · simp [optTypes, h, ST_EXCEPTION, ST_SYSTEM_INFO, ST_SystemInfoStream, ST_MISC_INFO, ST_MiscInfoStream] at h1
 
 theorem no_sysInfo (h : m.sysInfo = none) : ST_SYSTEM_INFO ∉ coreTypes m f := by
   rw [mem_coreTypes]
-  rintro (h0 | ⟨_, h2⟩ | ⟨h1, _⟩)
+  rintro (h0 | h1)
   · cases f <;> exact absurd h0 (by decide)
-  · exact absurd h2 (by decide)
-  · simp [h] at h1
+  · simp [optTypes, h, ST_EXCEPTION, ST_SYSTEM_INFO, ST_SystemInfoStream, ST_MISC_INFO, ST_MiscInfoStream] at h1
+
+theorem no_miscInfo (h : m.miscInfo = none) : ST_MISC_INFO ∉ coreTypes m f := by
+  rw [mem_coreTypes]
+  rintro (h0 | h1)
+  · cases f <;> exact absurd h0 (by decide)
+  · simp [optTypes, h, ST_EXCEPTION, ST_SYSTEM_INFO, ST_SystemInfoStream, ST_MISC_INFO, ST_MiscInfoStream] at h1
 
 end core
 
